@@ -40,6 +40,29 @@ theorem uint_roundtrip (v n : Nat) (hv : v < 2 ^ 64) (bs rest : Bytes)
   obtain ⟨rfl, _⟩ := marshalUint_ok h
   rw [unmarshalUint_enc v hv, enc_length]
 
+/-- C15.uint_prefix_free: the varint code is prefix free and injective — if the encodings of two
+64-bit values start the same byte stream (whatever follows each), the values and the encodings
+are equal. This is what lets items be concatenated without separators. -/
+theorem uint_prefix_free (v v' n m : Nat) (hv : v < 2 ^ 64) (hv' : v' < 2 ^ 64)
+    (bs bs' rest rest' : Bytes)
+    (h : marshalUint v n = .ok bs) (h' : marshalUint v' m = .ok bs')
+    (heq : bs ++ rest = bs' ++ rest') : v = v' ∧ bs = bs' ∧ rest = rest' :=
+  by
+  have r := uint_roundtrip v n hv bs rest h
+  have r' := uint_roundtrip v' m hv' bs' rest' h'
+  rw [heq, r'] at r
+  injection r with r
+  injection r with hl hvv
+  have hbs : bs = bs' := by
+    have := congrArg (List.take bs.length) heq
+    rw [List.take_left', ← hl, List.take_left'] at this <;> first | rfl | exact this
+  subst hbs
+  exact ⟨hvv.symm, rfl, List.append_cancel_left heq⟩
+
+theorem uint_injective (v v' n m : Nat) (hv : v < 2 ^ 64) (hv' : v' < 2 ^ 64) (bs : Bytes)
+    (h : marshalUint v n = .ok bs) (h' : marshalUint v' m = .ok bs) : v = v' :=
+  (uint_prefix_free v v' n m hv hv' bs bs [] [] h h' rfl).1
+
 theorem marshalUint_bytesWF (v n : Nat) (bs : Bytes) (h : marshalUint v n = .ok bs) : BytesWF bs :=
   by
   obtain ⟨rfl, _⟩ := marshalUint_ok h
